@@ -56,6 +56,7 @@ OUTSIDE = ['rendering of stored messages (email.headerregistry, email.utils)', '
            'deeply nested lists (RecursionError needs hundreds of bytes)', 'the asyncio stream layer']
 
 _g: dict = {}
+_cg: dict = {}     # bindings of the connection-level harnesses
 
 
 def setup() -> None:
@@ -277,6 +278,24 @@ def harnesses(tier):
                           _h_litplus(k), {'literal_plus': k}, replay='line', fuel=400, task_budget=120))
     for n in range(0, (6 if q else 7) + 1):
         hs.append(Harness('idle_done[len=%d]' % n, _h_idle_done(n), {'len': n}, replay='idle'))
+    from checks import c06_conn
+    if not _cg:
+        _cg.update(c06_conn.bindings())
+        from checks import _sim
+        _cg['_sim'] = _sim
+    for nsym in ([4] if q else [4, 5]):
+        hs.append(Harness('conn:bad_limit[lines=7,sym=%d]' % nsym, c06_conn.h_bad_limit(_cg, 7, nsym),
+                          {'lines': 7, 'symbolic_line': 'a + %d bytes at any position' % nsym}, replay='badlimit',
+                          task_budget=60))
+    for n in range(0, (3 if q else 4) + 1):
+        hs.append(Harness('conn:auth_plain[raw=%d]' % n, c06_conn.h_auth_plain(_cg, n), {'decoded_bytes': n},
+                          replay='authplain', task_budget=60))
+    for wi in range(len(c06_conn.NEST)):
+        for depth in ([1500] if q else [400, 1500, 5000]):
+            hs.append(Harness('conn:nesting[%s x%d]' % ((c06_conn.NEST[wi][0] + c06_conn.NEST[wi][1]).decode().strip(), depth),
+                              c06_conn.h_nesting(_cg, wi, depth, 1 if q else 2),
+                              {'construct': c06_conn.NEST[wi][1].decode(), 'depth': depth, 'symbolic_tail': 1 if q else 2},
+                              replay='nesting', task_budget=120))
     hs.append(Harness('seqset_work_bound', _h_seqset_work(),
                       {'numbers': '1..2^32-1 (symbolic) or *', 'max_value': '0..2^32-1 (symbolic)',
                        'shapes': ['n', '*', 'a:b', 'a:*', '*:b']}, replay='seqwork'))
@@ -358,6 +377,9 @@ def _with_alarm(fn, seconds=1.0):
 
 
 def replay(harness, w):
+    if harness in ('badlimit', 'authplain', 'nesting'):
+        from checks import c06_conn
+        return c06_conn.replay(harness, w)
     from pymap.parsing import Params
     from pymap.parsing.state import ParsingState, ParsingInterrupt, ExpectContinuation
     from pymap.parsing.exceptions import NotParseable
